@@ -12,7 +12,7 @@ if r.returncode != 0:
     r = subprocess.run(["patch", "-p1", "-i", diff], cwd=d, capture_output=True, text=True)
     assert r.returncode == 0, r.stdout + r.stderr
 tgt = "/tmp/refac_target_%d" % os.getpid()
-subprocess.run(["cp", "-r", "/repo/target", tgt], check=True)
+subprocess.run(["cp", "-r", "/tmp/seed_target" if os.path.isdir("/tmp/seed_target") else "/repo/target", tgt], check=True)
 env = dict(os.environ, CARGO_TARGET_DIR=tgt, CARGO_NET_OFFLINE="true")
 t = subprocess.run(["cargo", "test", "--offline"], cwd=d, env=env, capture_output=True, text=True)
 passed = sum(int(x) for x in re.findall(r"test result: ok\. (\d+) passed", t.stdout))
@@ -24,7 +24,8 @@ for p in props:
 shutil.rmtree(d)
 out = os.path.join(V, "seeded", "refactors")
 os.makedirs(out, exist_ok=True)
-shutil.copy(diff, os.path.join(out, rid + ".diff"))
+if os.path.abspath(diff) != os.path.abspath(os.path.join(out, rid + ".diff")):
+    shutil.copy(diff, os.path.join(out, rid + ".diff"))
 meta = {"id": rid, "kind": "behaviour-preserving refactoring (false-alarm test)", "suite_passed": passed, "suite_rc": t.returncode, "checks": res,
         "false_alarm": any(v["rc"] == 1 for v in res.values()), "undecided": [p for p, v in res.items() if v["rc"] == 2]}
 json.dump(meta, open(os.path.join(out, rid + ".json"), "w"), indent=1)
